@@ -1,9 +1,25 @@
 import abc
 import enum
+import inspect
 import json
-from typing import Any, Dict, Iterable, Mapping, Optional
+from typing import Any, Dict, Iterable, List, Mapping, Optional
 
 from pjrpc.server import Method
+from pjrpc.server.dispatcher import ViewMethod
+
+
+def get_excluded_params(method: Method) -> List[str]:
+    """
+    Returns the names of the method parameters that are not JSON-RPC parameters:
+    the context parameter and, for class based view methods, the view instance itself.
+    """
+
+    exclude = [method.context] if method.context else []
+    if isinstance(method, ViewMethod):
+        if not isinstance(inspect.getattr_static(method.view_cls, method.method_name), (staticmethod, classmethod)):
+            exclude.extend(list(inspect.signature(method.method).parameters)[:1])
+
+    return exclude
 
 
 class JSONEncoder(json.JSONEncoder):
